@@ -332,6 +332,10 @@ impl Host {
             _ => None,
         }
     }
+    /// byte hosts: the id this request was given
+    pub fn id_of(&self, path: &Path) -> Option<u32> {
+        self.ids.get(path).copied()
+    }
     /// the request that was last given this id
     pub fn owner_of(&self, id: u32) -> Option<&Path> {
         self.owner.get(&id)
@@ -489,32 +493,44 @@ pub fn run_case(u: &Universe, cfg: &CaseCfg) -> Result<CaseInfo, CaseFail> {
         let open_paths: Vec<Path> = open.keys().cloned().collect();
         // translate the abstract action into stamped trace events + host calls
         let mut expect: Option<Expect> = None;
-        let mut cancel_context = matches!(act, Act::Drop(_) | Act::AbortCmd(_) | Act::AbortTask(_) | Act::ResolveAgain(_));
+        let mut cancel_context = matches!(act, Act::Drop(_) | Act::AbortCmd(_) | Act::AbortTask(_) | Act::ResolveAgain(_) | Act::Garbage(_));
         let cancellations_before = reference.world().cancellations;
         let act_text = format!("{act:?}");
         let called: Result<Obs, String> = (|| {
             Ok(match act {
                 Act::Drain(..) => unreachable!(),
                 Act::Garbage(c) => {
-                    // undecodable bytes as the response to a live stream: rejected, and nothing else happens
+                    // undecodable bytes as the response to an outstanding request: always rejected. A live
+                    // stream is not affected at all; a one-shot request is lost (the bridge has used up its
+                    // only resolution): for the app that is the same as the shell dropping the request
                     if host.can_drop() {
                         return Err(String::new());
                     }
-                    let cands: Vec<&Path> = open_paths.iter().filter(|p| open[*p].kind == SUB && host.id_still_names(p)).collect();
+                    let cands: Vec<&Path> = open_paths.iter().filter(|p| open[*p].kind != NOTE && host.id_still_names(p)).collect();
                     if cands.is_empty() {
                         return Err(String::new());
                     }
                     let path = cands[pick(c, cands.len())].clone();
+                    let one_shot = open[&path].kind == REQ;
                     info.garbage += 1;
                     expect = Some(Expect::Err);
+                    if one_shot {
+                        sink.push(Tr::DropReq(path.clone()));
+                    }
                     let bytes: &[u8] = if host.is_json() { b"\"x" } else { &[0xff] };
-                    match vkit::panics::catch(|| host.respond_bytes(&path, bytes, false)).map_err(|p| format!("[bridge-panic] handle_response panicked on undecodable bytes: {p}"))?? {
+                    let mut obs = match vkit::panics::catch(|| host.respond_bytes(&path, bytes, one_shot)).map_err(|p| format!("[bridge-panic] handle_response panicked on undecodable bytes: {p}"))?? {
                         None => Obs { effects: vec![], resolve_ok: Some(false) },
                         Some(mut obs) => {
                             obs.resolve_ok = Some(true);
                             obs
                         }
+                    };
+                    if one_shot {
+                        open.remove(&path);
+                        // like a drop, the loss surfaces at the next call
+                        obs.effects.extend(host.send(Event::Noop)?.effects);
                     }
+                    obs
                 }
                 Act::Start(p) => {
                     let prog = (p as usize % u.programs.len()) as u16;
